@@ -15,10 +15,10 @@ def run(ctx):
     binp = snapalg.build()
     run_ = snapalg.Run(ctx)
     if ctx.tier == "quick":
-        fams_laws, fams_a, nb, seeds, par = ["PairQuick"], ["PairQuick"], 80, 1, 4
+        fams_laws, fams_a, nb, seeds, par = ["PairQuick", "PairZero"], ["PairQuick", "PairZero"], 80, 1, 4
     else:
-        fams_laws = ["PairMedium", "PairExplicit", "PairThorough", "BigPair"]
-        fams_a = ["PairMedium", "PairExplicit", "PairThorough", "BigPair"]
+        fams_laws = ["PairMedium", "PairExplicit", "PairThorough", "PairZero", "BigPair"]
+        fams_a = ["PairMedium", "PairExplicit", "PairThorough", "PairZero", "BigPair"]
         nb, seeds, par = 400, 4, 8
     paths = snapalg.run_all(ctx, run_, binp, fams_laws, fams_a, "pair", nb, seeds=seeds, par=par,
                             law_workers=2 if ctx.tier == "quick" else 3)
@@ -35,7 +35,7 @@ def run(ctx):
     ctx.coverage["exhaustive"] = True
     ctx.assumptions += [
         "items of one key have the same length in both snapshots of a pair (Delta::create panics otherwise by contract: 'item sizes can't be mismatched for self-created snapshots'; the game makes the length a function of the type)",
-        "items of a type with a pre-agreed size have that size (Delta::write asserts it)",
+        "items of a type with a pre-agreed size have that size (Delta::write asserts it); size tables include a pre-agreed size of 0 (family PairZero, random tables with type 63 -> 0)",
         "the DDNet reference is only called with what it can express without aborting the process: types <= 0x7fff, pre-agreed types < 64 with non-zero size, items added in the order of the unsigned key; an empty reference delta (0 integers) means 'no delta' (the cleared Delta), as in Manager::add_delta",
         "exhaustive over the small universes of MC_SnapAlg.tla only; real-size pairs are seeded random samples",
     ]
